@@ -12,6 +12,7 @@ oracle is three-valued: True / False / None (unspecified, only "no exception").
 import ipaddress
 import re
 
+from vcheck import argtypes
 from vcheck import core
 from vcheck.core import Task, Violation
 
@@ -20,6 +21,8 @@ LEVEL = 'exploration'
 BUDGET = {'quick': 45, 'thorough': 420}
 # deterministic sub-checks repeated in a `python -O` child (core.optimized_child)
 OPT_SUBS = ('mac/family', 'int/odd', 'badchar/family', 'confusable/family', 'ipv4/family', 'ipv6/family', 'cidr/family', 'int/range')
+# sub-checks repeated with str / int arguments as subclass instances
+SUBCLASS_SUBS = ('mac/family', 'int/odd', 'badchar/family', 'ipv4/family#1', 'ipv6/family#1', 'cidr/family#1', 'int/range#1')
 # documented call interface the generated calls rely on (vcheck/callstyle.py)
 INTERFACE = [('oslo_utils.netutils', ['is_valid_ipv4', 'is_valid_ipv6', 'is_valid_cidr', 'is_valid_ipv6_cidr', 'is_valid_ip', 'is_valid_mac', 'is_valid_port', 'is_valid_icmp_type', 'is_valid_icmp_code'])]
 RULE = ('Strings from address grammars - dotted quads with 1..5 parts over a '
@@ -348,7 +351,7 @@ def judge(col, sub, fn, arg, want, findings, got):
 
 def _call(f, a):
     try:
-        return ('ok', f(a))
+        return ('ok', f(argtypes.maybe(a)))
     except Exception as e:      # noqa - any exception class is the finding
         return ('err', e)
 
